@@ -132,6 +132,10 @@ func Run(args []string) {
 		g.workers = append(g.workers, w)
 	}
 	_, g.haveBatch = g.workers[0].db.(walletdb.BatchDB)
+	g.batchFast = true
+	for _, w := range g.workers {
+		g.batchFast = g.batchFast && w.batchFast
+	}
 
 	us := universes(run.Thorough())
 	only := os.Getenv("C11_ONLY")
@@ -201,32 +205,35 @@ func (g *global) finish() {
 			"states are restored by clearing the namespace and writing the model in one Update; every restore is verified by a dump before it is used",
 		}
 		cov := ev.Coverage{
-			"states":                           len(g.allState),
-			"states_reached_beyond_bound":      g.boundary,
-			"transitions":                      g.tot.transitions,
-			"traces_validated_against_impl":    g.tot.transitions,
-			"evaluations":                      g.tot.evals,
-			"distinct_nontrivial":              distinct,
-			"nontrivial_transitions_total":     len(nt),
-			"rule":                             "a transition is one whole transaction (kind x program x closure outcome) run against the real bdb database from a model state, or close+reopen; every read result and mutator error inside it, the fresh-read dump after it (and after reopen where marked) are compared with the nested-map model. distinct_nontrivial = distinct (state, program, kind, outcome) in read-write transactions that do not commit (closure error, closure panic, manual Rollback) whose program changed the in-transaction view at least once, i.e. a rollback really had something to undo",
-			"per_kind_outcome":                 g.tot.perKO,
-			"operations_skipped_bucket_absent": g.tot.skipped,
-			"restores_verified":                g.tot.restores,
-			"reopens":                          g.tot.reopens,
-			"fresh_read_dumps":                 g.tot.dumps,
-			"closure_invocations":              g.tot.closureCalls,
-			"panics_propagated_to_caller":      g.tot.panicsPropagated,
-			"commits_changing_state":           g.tot.commitsChanging,
-			"bfs_max_depth":                    g.maxDepth,
-			"universes":                        g.ustats,
-			"bounds":                           g.bounds,
-			"batch_available":                  g.haveBatch,
-			"batch_immediate":                  g.batchFast,
-			"workers":                          nWorkers,
-			"exhaustive":                       len(g.notExh) == 0,
-			"not_exhaustive_because":           append([]string{}, g.notExh...),
+			"states":                                   len(g.allState),
+			"states_reached_beyond_bound":              g.boundary,
+			"transitions":                              g.tot.transitions,
+			"traces_validated_against_impl":            g.tot.transitions,
+			"evaluations":                              g.tot.evals,
+			"distinct_nontrivial":                      distinct,
+			"nontrivial_transitions_total":             len(nt),
+			"rule":                                     "a transition is one whole transaction (kind x program x closure outcome) run against the real bdb database from a model state, or close+reopen; after the search every state's whole history of committed transactions is replayed on one handle without restoring in between (chains), each step preceded by the same program under a failing and a panicking Update; every read result and mutator error inside it, the fresh-read dump after it (and after reopen where marked) are compared with the nested-map model. distinct_nontrivial = distinct (state, program, kind, outcome) in read-write transactions that do not commit (closure error, closure panic, manual Rollback) whose program changed the in-transaction view at least once, i.e. a rollback really had something to undo",
+			"per_kind_outcome":                         g.tot.perKO,
+			"operations_skipped_bucket_absent":         g.tot.skipped,
+			"restores_verified":                        g.tot.restores,
+			"reopens":                                  g.tot.reopens,
+			"fresh_read_dumps":                         g.tot.dumps,
+			"closure_invocations":                      g.tot.closureCalls,
+			"panics_propagated_to_caller":              g.tot.panicsPropagated,
+			"commits_changing_state":                   g.tot.commitsChanging,
+			"chains_replayed_without_restore":          g.tot.chainPaths,
+			"chain_steps":                              g.tot.chainSteps,
+			"chain_steps_on_unrestored_state":          g.tot.chainNoRestore,
+			"bfs_max_depth":                            g.maxDepth,
+			"universes":                                g.ustats,
+			"bounds":                                   g.bounds,
+			"batch_available":                          g.haveBatch,
+			"batch_immediate":                          g.batchFast,
+			"workers":                                  nWorkers,
+			"exhaustive":                               len(g.notExh) == 0,
+			"not_exhaustive_because":                   append([]string{}, g.notExh...),
 			"observed_error_classes_left_open_by_docs": g.tot.roNotConverted,
-			"samples": samples,
+			"samples":                                  samples,
 		}
 		if BeforeExit != nil {
 			BeforeExit()
